@@ -20,6 +20,10 @@ let eval case impl =
     let segl = if segs = "-" then [] else List.map (fun t -> bytes_of_hex (unbang t)) (split_on ',' segs) in
     let mode = ms.[0] in
     let sizes = List.map n_of_int (parse_sizes (String.sub ms 1 (String.length ms - 1))) in
+    (* segments written `!<hex>`: the stream fails once with Interrupted before delivering them (Model/BodyIntr.v) *)
+    let has_intr = segs <> "-" && List.exists (fun t -> String.length t > 0 && t.[0] = '!') (split_on ',' segs) in
+    let evs = if segs = "-" then [] else List.concat_map (fun t ->
+        if String.length t > 0 && t.[0] = '!' then [M.SIntr; M.SData (bytes_of_hex (unbang t))] else [M.SData (bytes_of_hex t)]) (split_on ',' segs) in
     let b0 =
       if kind.[0] = 'F' then M.new_fixed leftover segl (n_of_string (String.sub kind 1 (String.length kind - 1)))
       else if kind = "C" then M.new_chunked leftover segl
@@ -28,7 +32,30 @@ let eval case impl =
        loops separately *)
     let model =
       (* modes V / L (interrupted reads under callers that retry): judged by the spec alone as well - the model's stream never fails *)
-      if mode = 'M' || mode = 'V' || mode = 'L' then impl else begin
+      if mode = 'M' || mode = 'V' || mode = 'L' then impl
+      else if has_intr && (kind.[0] = 'F' || kind = "C") then begin
+        (* the model with events, call by call: an interrupted call delivers nothing and the loop goes on with the next entry *)
+        let be = if kind.[0] = 'F' then M.new_fixed_e leftover evs (n_of_string (String.sub kind 1 (String.length kind - 1))) else M.new_chunked_e leftover evs in
+        let rec rloop b szs acc = match szs with
+          | [] -> (acc, "MORE")
+          | k :: rest -> (match M.body_read_e k b with
+              | M.EErr (_, _) -> (acc, "ERR")
+              | M.EIntr b' -> rloop b' rest acc
+              | M.EOk ([], b') -> if k = M.N0 then rloop b' rest acc else (acc, "EOF")
+              | M.EOk (o, b') -> rloop b' rest (acc @ o)) in
+        let rec bloop b amts acc = match amts with
+          | [] -> (acc, "MORE")
+          | a :: rest -> (match M.body_fill_buf_e b with
+              | M.EErr (_, _) -> (acc, "ERR")
+              | M.EIntr b' -> bloop (M.body_consume_e M.N0 b') rest acc
+              | M.EOk ([], _) -> (acc, "EOF")
+              | M.EOk (avail, b') ->
+                let rec take n l = if n <= 0 then [] else match l with [] -> [] | x :: t -> x :: take (n - 1) t in
+                let got = take (int_of_n a) avail in
+                bloop (M.body_consume_e (n_of_int (List.length got)) b') rest (acc @ got)) in
+        let (out, st) = if mode = 'R' then rloop be sizes [] else bloop be sizes [] in
+        hex_of_bytes out ^ " " ^ st end
+      else begin
         (* Read loop as in Model.read_all, except that a zero-sized read (an empty caller buffer) is not an end report *)
         let rec rloop b szs acc = match szs with
           | [] -> (acc, "MORE")
